@@ -2,7 +2,7 @@
 
 A spec is
   {"name": str,
-   "abstract": [[name, parent|None, "ABC"|"decorator"], ...],
+   "abstract": [[name, parent|None, "ABC"|"decorator"|"ABC+dc"|"decorator+dc"], ...],
    "prods": [[name, parent|None, weight|None, [[field, TYPE], ...]], ...],
    "start": name,
    "considered": [names...] | None        (None = every class)}
@@ -209,6 +209,8 @@ def build(spec, hash_order: Optional[dict[str, int]] = None) -> Bundle:
 
     use_meta = hash_order is not None
     for name, parent, how in spec["abstract"]:
+        as_dataclass = how.endswith("+dc")  # the abstract class is itself a (field-less) dataclass
+        how = how.split("+")[0]
         if parent is None:
             if how == "ABC":
                 bases: tuple = (ABC,)
@@ -221,6 +223,9 @@ def build(spec, hash_order: Optional[dict[str, int]] = None) -> Bundle:
             cls = OrderMeta(name, bases or (object,), kw)
         else:
             cls = (ABCMeta if how == "ABC" and parent is None else type)(name, bases or (object,), kw)
+        if as_dataclass:
+            cls.__annotations__ = {}
+            cls = dataclass(cls)
         if how == "decorator" or parent is not None:
             cls = abstract(cls)
         classes[name] = cls
@@ -779,6 +784,34 @@ def family_shapes():
             "start": "T",
         },
     )
+    # S27 abstract types that are themselves dataclasses (`@dataclass class String(ABC)`, `@abstract @dataclass class BinOp(Expr)`)
+    out.append(
+        {
+            "name": "S27:abstract-dataclass",
+            "abstract": [["A", None, "ABC+dc"], ["B", "A", "decorator+dc"]],
+            "prods": [
+                ["L", "A", None, [["v", IR01]]],
+                ["M", "B", None, [["w", "bool"]]],
+                ["N", "B", None, [["x", ref("A")], ["y", ref("B")]]],
+                ["P", "A", None, [["b", ref("B")]]],
+            ],
+            "start": "A",
+        },
+    )
+    # S28 a size-bounded list (minimum 1) whose elements carry a dependent refinement that has no value when a == 0:
+    # the whole production is infeasible in that context and creation has to fall back to another one
+    out.append(
+        {
+            "name": "S28:list-of-dependent",
+            "abstract": [["A", None, "ABC"]],
+            "prods": [
+                ["L", "A", None, [["v", IR01]]],
+                ["D", "A", None, [["a", IR01], ["ns", lsb(["ann", "str", ["Dep", "a", ["VarRangeOf", [[], ["q"]]]]], 1, 2)]]],
+                ["N", "A", None, [["x", ref("A")]]],
+            ],
+            "start": "A",
+        },
+    )
     # S16 union of two abstract types of different minimum depth
     out.append(
         {
@@ -848,7 +881,7 @@ def finite_family(tier: str):
     fa = finite_alphabet()
     out = list(family_one_abstract(fa, 1 if tier == "quick" else 2, "F1"))
     out += [s for s in family_shapes() if s["name"].split(":")[0] in
-            ("S1", "S2", "S3", "S4", "S5", "S6", "S7", "S8", "S9", "S10", "S12", "S13", "S14", "S15", "S16", "S17", "S18", "S19", "S20", "S22", "S23", "S24", "S26")]
+            ("S1", "S2", "S3", "S4", "S5", "S6", "S7", "S8", "S9", "S10", "S12", "S13", "S14", "S15", "S16", "S17", "S18", "S19", "S20", "S22", "S23", "S24", "S26", "S27", "S28")]
     out += list(family_two_abstract(finite_alphabet, "F2"))
     out += list(family_nested(finite_alphabet, "F3"))
     return out
